@@ -175,6 +175,65 @@ def run(m: Model, r: Report, tier: str) -> None:
     pref = [n for n in walk_no_nested(ack.node) if isinstance(n, ast.If) and "PreviousDiagnosticMessageData" in ast.unparse(n.test)]
     okp = len(pref) == 1 and m.has(ack, "payload.PreviousDiagnosticMessageData != prev_data[:len(payload.PreviousDiagnosticMessageData)]", pref[0].test)
     r.check(okp, "R6", f"{ack.qualname}#echo-prefix", "the ack is not compared with the prefix of the message just sent", loc=ack.loc)
+    # skip filters of the three consumers as truth tables over the frame kind / the address pair / the echoed prefix
+    from sa import miniterp
+
+    class _P:                                  # abstract frame: a kind plus attributes
+        def __init__(self, kind: str, **kw):
+            self.kind = kind
+            self.__dict__.update(kw)
+
+    def _filters(fn):
+        loops_ = [n for n in walk_no_nested(fn.node) if isinstance(n, ast.While)]
+        if len(loops_) != 1:
+            raise AnalysisError(f"{fn.qualname}: consumer loop not found")
+        return [n for n in loops_[0].body if isinstance(n, ast.If) and n.body and isinstance(n.body[-1], ast.Continue)], loops_[0]
+
+    def _eval(test, fn, payload, extra=None):
+        pv = None
+        for n in ast.walk(fn.node):
+            if isinstance(n, ast.Assign) and isinstance(n.targets[0], ast.Tuple) and "read_frame" in ast.unparse(n.value) and len(n.targets[0].elts) == 2:
+                pv = n.targets[0].elts[1].id
+        if pv is None:
+            raise AnalysisError(f"{fn.qualname}: frame variable not found")
+        def oracle(call, env):
+            if ast.unparse(call.func) == "isinstance" and len(call.args) == 2 and isinstance(call.args[0], ast.Name) and call.args[0].id == pv:
+                names = [ast.unparse(x).split(".")[-1] for x in (call.args[1].elts if isinstance(call.args[1], ast.Tuple) else [call.args[1]])]
+                return payload.kind in names
+            return NotImplemented
+        env = {pv: payload, "self.src_addr": 0x0E00, "self.target_addr": 0x1234}
+        for k_, v_ in payload.__dict__.items():
+            env[f"{pv}.{k_}"] = v_
+        env.update(extra or {})
+        return bool(miniterp.eval_expr(test, env, oracle))
+
+    KINDS = ["DiagnosticMessagePositiveAcknowledgement", "DiagnosticMessageNegativeAcknowledgement", "DiagnosticMessage", "RoutingActivationResponse", "AliveCheckResponse"]
+    for fn_, accepted in ((ack, KINDS[:2]), (diag, KINDS[2:3]), (ra, KINDS[3:4])):
+        fl, _lp = _filters(fn_)
+        tf = [x for x in fl if "isinstance(" in ast.unparse(x.test)]
+        if len(tf) != 1:
+            raise AnalysisError(f"{fn_.qualname}: frame kind filter not found")
+        bad = [k for k in KINDS if _eval(tf[0].test, fn_, _P(k)) != (k not in accepted)]
+        r.check(not bad, "R6", f"{fn_.qualname}#kind-filter", f"frames of kind {bad} are " + ("skipped although awaited" if any(b in accepted for b in bad) else "taken although foreign"), loc=fn_.loc)
+    for fn_ in (ack, diag):
+        fl, _lp = _filters(fn_)
+        af = [x for x in fl if "SourceAddress" in ast.unparse(x.test) and "TargetAddress" in ast.unparse(x.test)]
+        if len(af) != 1:
+            continue
+        bad = []
+        for sa_, ta_ in ((0x1234, 0x0E00), (0x1234, 0x0E01), (0x1235, 0x0E00), (0x0E00, 0x1234), (0x1235, 0x0E01)):
+            if _eval(af[0].test, fn_, _P("x", SourceAddress=sa_, TargetAddress=ta_)) != ((sa_, ta_) != (0x1234, 0x0E00)):
+                bad.append(f"source={sa_:#x} target={ta_:#x}")
+        r.check(not bad, "R6", f"{fn_.qualname}#address-filter-table",
+                f"with target 0x1234 and tester 0x0e00 the filter decides wrongly for {bad}: only frames from the target to the tester may pass", loc=fn_.loc)
+    if len(pref) == 1:
+        ppar = ack.params()[1] if len(ack.params()) > 1 else "prev_data"
+        bad = []
+        for echo in (b"", b"\x22", b"\x22\xf1", b"\x99", b"\x22\xf1\x90\x00"):
+            want_skip = len(echo) > 0 and echo != b"\x22\xf1\x90"[:len(echo)]
+            if _eval(pref[0].test, ack, _P("x", PreviousDiagnosticMessageData=echo), {ppar: b"\x22\xf1\x90"}) != want_skip:
+                bad.append(echo.hex() or "<empty>")
+        r.check(not bad, "R6", f"{ack.qualname}#echo-prefix-table", f"for the request 22f190 an ack echoing {bad} is classified wrongly (an ack belongs to the request iff its echo is a prefix of it)", loc=ack.loc)
     tr.requeue_before_exit(r, "R7", ack, "self._read_queue", ("DoIPNegativeAckError",))
     tr.requeue_before_exit(r, "R7", diag, "self._read_queue")
     tr.requeue_before_exit(r, "R7", ra, "self._read_queue", ("DoIPRoutingActivationDeniedError",))
